@@ -23,6 +23,8 @@ def base_params(fam, rng):
         p.update(alpha_warning=0.45)
     if fam == "LinearFourRates":
         p.update(warning_level=0.25)
+    if fam == "CUSUM" and rng.random() < 0.5:
+        p.update(target=rng.choice([0.0, 2.0]), sd_hat=rng.choice([1.0, 2.0]), burn_in=rng.choice([8, 20, 30]))   # known target: sums accumulate during burn-in
     return p
 
 
